@@ -12,7 +12,8 @@ git -C /repo worktree add -q $WT HEAD || exit 2
 ( cd $WT && git apply "$patch" ) || { echo "PATCH DOES NOT APPLY"; git -C /repo worktree remove --force $WT; exit 2; }
 H=/verif/build/mutrun_harness
 rm -rf $H; mkdir -p $H; cp -r /verif/harness/src /verif/harness/Cargo.toml /verif/harness/Cargo.lock /verif/harness/.cargo $H/
-sed -i "s#path = \"/repo\"#path = \"$WT\"#" $H/Cargo.toml
+cp -r /verif/harness/np $H/
+sed -i "s#path = \"/repo\"#path = \"$WT\"#" $H/Cargo.toml $H/np/Cargo.toml
 cd /verif
 for p in "$@"; do
   echo "== $p"
